@@ -309,7 +309,7 @@ Section M.
   Proof.
     induction h as [|e h IH]; intros t t' obs ops Hd Hc Hl; cbn in Hl.
     - injection Hl as <- <-. cbn. rewrite app_nil_r. auto.
-    - destruct e as [r| |s sched].
+    - destruct e as [r| |n| |s sched].
       + destruct (life (do_cancel t r) h) as [t2 o] eqn:E. injection Hl as <- <-.
         assert (Hd1 : default_thread (do_cancel t r))
           by (unfold default_thread; rewrite (proj2 (proj2 (proj2 (do_cancel_fields t r)))); exact Hd).
@@ -318,6 +318,10 @@ Section M.
       + destruct (life (do_uncancel t) h) as [t2 o] eqn:E. injection Hl as <- <-.
         destruct (IH (do_uncancel t) _ _ (ops ++ [CUncancel]) Hd (do_uncancel_spec t ops) E) as (A & B & C).
         cbn. rewrite <- app_assoc in B. auto.
+      + destruct (life (set_max_execution_steps t n) h) as [t2 o] eqn:E. injection Hl as <- <-.
+        destruct (IH (set_max_execution_steps t n) _ _ ops Hd Hc E) as (A & B & C). cbn. auto.
+      + destruct (life t h) as [t2 o] eqn:E. injection Hl as <- <-.
+        destruct (IH t _ _ ops Hd Hc E) as (A & B & C). cbn. auto.
       + destruct (run (start t s) sched) as [st1 tr] eqn:Er.
         destruct (call_init_fields t) as (C1 & C2 & C3 & C4).
         assert (Hd0 : default_thread (sthread (start t s))).
